@@ -42,6 +42,8 @@ func init() { trace.Reg("PKG.init-z") }
 `,
 		`var V3 = trace.Reg("PKG.v3")
 var unusedButInitialised = trace.Reg("PKG.unused")
+var unusedConv = Int(int8(trace.Reg("PKG.conv")))
+var unusedIndex = [3]Int{1, 2, 3}[trace.Reg("PKG.idx")%3]
 
 func init() { trace.Reg("PKG.init-a1") }
 func init() { trace.Reg("PKG.init-a2") }
